@@ -198,7 +198,30 @@ def generate(seed, n):
             nested.append(("St%d" % i, total))
         i += 1
         k += 1
+    out.append(WITNESSES)
     return "\n\n".join(out) + "\n"
+
+
+# Fixed witness declarations (always part of the corpus): layouts the derive accepts silently although the
+# generated code cannot implement them.  They make the two generator defects recorded as known findings
+# (C19.gen|narrow-int-field|..., C19.gen|signed-subbyte-field|...) visible on every run.
+WITNESSES = '''#[derive(Debug, Clone, Copy, PartialEq, ethercrab_wire::EtherCrabWireReadWrite)]
+#[wire(bytes = 4)]
+pub struct WitnessNarrowU32 {
+    #[wire(bits = 24)]
+    pub v: u32,
+    #[wire(bits = 8)]
+    pub t: u8,
+}
+
+#[derive(Debug, Clone, Copy, PartialEq, ethercrab_wire::EtherCrabWireReadWrite)]
+#[wire(bytes = 1)]
+pub struct WitnessSignedNibble {
+    #[wire(bits = 4)]
+    pub a: i8,
+    #[wire(bits = 4)]
+    pub b: u8,
+}'''
 
 
 if __name__ == "__main__":
